@@ -189,6 +189,7 @@ class ExploreResult:
         self.bad = []
         self.over_budget = False
         self.draws = 0
+        self.dead = 0
 
     def distribution(self, key=lambda o: o):
         dist = {}
@@ -211,8 +212,19 @@ def explore(run, max_paths=4096, min_branch=1e-9):
             break
         prefix = stack.pop()
         rng = ScriptedRandom(prefix)
-        outcome = run(rng)
-        res.bad.extend(rng.bad)
+        try:
+            outcome = run(rng)
+        except UnscriptedDraw:
+            raise
+        except Exception:
+            # A forced branch of (numerically) zero probability leaves a garbage state behind; whatever the code
+            # does with it carries no probability mass.  Anything that fails on a path of real weight is re-raised.
+            if rng.path_probability() >= 1e-5:
+                raise
+            res.dead += 1
+            res.paths.append((rng.path_probability(), ("dead-path",), rng.decisions()))
+            continue
+        res.bad.extend(rng.bad if rng.path_probability() >= 1e-5 else [])
         res.draws += len(rng.log)
         res.paths.append((rng.path_probability(), outcome, rng.decisions()))
         decs = rng.decisions()
